@@ -28,8 +28,8 @@ LEVEL_TEXT = (
     'behaviours, with the caller struck at every activation boundary in the thorough tier.')
 TECHNIQUE = 'runtime monitoring: sort-by-completion model over the event log + containment of the losers, signal injection at activation boundaries'
 ASSUMPTIONS = [
-    'failing activities are only used with collect(); first() with a failing activity is the '
-    'known finding D15 (C03)',
+    'failing activities are used with collect(), and with first() only when the consumer never '
+    'suspends in its own loop body (otherwise it is the known finding D15 of C03)',
 ]
 REQUIRED_STATS = ['collects_judged', 'firsts_judged', 'items_checked', 'losers_checked',
                   'signals_landed']
@@ -59,6 +59,13 @@ def make_case(seed, index, tier):
         spec['work'] = rng.choice([0, 0, 0.5, 1, 2])
         spec['brk'] = rng.choice([None, None, None, 1, 2])
         spec['aclose'] = rng.random() < 0.5
+        if spec['work'] == 0 and spec['brk'] is None and rng.random() < 0.5:
+            # a consumer that never suspends in its own loop body is always inside first()
+            # when a failure strikes: the failure must surface as Concurrent (with a suspending
+            # body it is the known finding D15)
+            for act in acts:
+                if rng.random() < 0.3:
+                    act['fail'] = True
     return {'seed': seed, 'index': index, 'tier': tier, 'scenario': spec}
 
 
@@ -143,6 +150,9 @@ def build_for(case):
                         checker.result = ('items', items, time.now)
                     except ValueError:
                         checker.result = ('ValueError', items, time.now)
+                    except Concurrent as exc:
+                        checker.result = ('first-concurrent', items, time.now,
+                                          [str(child.args[0]) for child in exc.children])
                     finally:
                         box.clear()
             finally:
@@ -228,6 +238,8 @@ def check(sess, arena, checker, outcome, plan):
                 if result[0] != 'ValueError':
                     checker.violation('first-no-valueerror', 'count %d > %d activities but no '
                                       'ValueError (%r)' % (count, n, result[:2]))
+            elif any(act['fail'] for act in acts):
+                judge_failing_first(checker, sess, spec, result, order, t0, count)
             elif result[0] != 'items':
                 checker.violation('first-unexpected-valueerror', 'ValueError for count %r of %d'
                                   % (spec['count'], n))
@@ -276,6 +288,45 @@ def check(sess, arena, checker, outcome, plan):
                                               position, value, when, completed, asked))
     found += [dict(v) for v in sess.violations if v['mechanism'].startswith('c16:')]
     return found
+
+
+def judge_failing_first(checker, sess, spec, result, order, t0, count):
+    """first() with failing activities and a consumer that never leaves the generator"""
+    acts = spec['acts']
+    failing = [t0 + act['d1'] + act['d2'] for act in acts if act['fail']]
+    first_fail = min(failing)
+    before = [(acts[number]['value'], when) for number, when, failed in order
+              if not failed and when < first_fail]
+    checker.stats['first_failures'] = checker.stats.get('first_failures', 0) + 1
+    if len(before) >= count:
+        if result[0] != 'items' or [value for value, _ in result[1]] != \
+                [value for value, _ in before[:count]]:
+            checker.violation('first-wrong-result-before-failure',
+                              'first(count=%r): %d results complete before the first failure at '
+                              '%r, got %r' % (spec['count'], len(before), first_fail, result[:2]))
+        return
+    if result[0] != 'first-concurrent':
+        checker.violation('first-failure-not-raised',
+                          'an activity fails at %r before %r results are available, but first() '
+                          'ended with %r' % (first_fail, count, result[:2]))
+        return
+    if result[2] != first_fail:
+        checker.violation('first-failure-time', 'first() failed at %r, the activity failed at %r'
+                          % (result[2], first_fail))
+    raised = ['act%d' % number for number, when, failed in order if failed]
+    if result[3] != raised:
+        checker.violation('first-wrong-failures', 'Concurrent of %s, logged failures %s' % (
+            result[3], raised))
+    got = [value for value, _ in result[1]]
+    must = [value for value, _ in before]
+    if got[:len(must)] != must:
+        checker.violation('first-wrong-result-before-failure',
+                          'results before the failure: %s, yielded %s' % (must, got))
+    late = [ev for ev in sess.events if str(ev[1]).startswith('act') and ev[0] > first_fail
+            and ev[2] != 'closed']
+    if late:
+        checker.violation('first-losers-not-aborted', 'event %r after the failure at %r' % (
+            late[0], first_fail))
 
 
 def run_case(case):
